@@ -325,6 +325,12 @@ fn history_doc(hi: usize, ti: usize, idx: &[usize]) -> (Vec<u8>, usize, usize, N
 }
 
 pub fn replay(case: &Value) -> Option<String> {
+    if case["kind"].as_str() == Some("bigtag") {
+        let doc = unhex(case["doc_hex"].as_str()?);
+        let p = Prepared::new(base_cfg("UTF-8", lookup_ops(encoding_rs::UTF_8))).ok()?;
+        let ns = if case["svg"].as_bool()? { Ns::Svg } else { Ns::Html };
+        return check_read(&p, &doc, case["start"].as_u64()? as usize, case["len"].as_u64()? as usize, ns, case["cut"].as_u64().map(|c| c as usize)).0;
+    }
     if case["kind"].as_str() == Some("history") {
         let idx: Vec<usize> = serde_json::from_value(case["pieces"].clone()).ok()?;
         let (doc, start, len, ns) = history_doc(case["history"].as_u64()? as usize, case["name"].as_u64()? as usize, &idx);
@@ -450,6 +456,44 @@ pub fn run_check(ctx: &Ctx) -> i32 {
     });
     if !ctx.capped.load(std::sync::atomic::Ordering::Relaxed) {
         ctx.level_done(&format!("5 tag names x pieces<={max} (and {} further names: every void element, case variants, near misses, ordinary names x pieces<=2) x 8 contexts x 3 encodings x every cut inside the tag; 9 edits + re-read up to pieces<={}", NAMES.len() - DEEP_NAMES, if max > 3 { max - 1 } else { max }));
+    }
+    // many attributes, long names and values: counts and lengths around 8, 16, 32, 64 / 12, 13, 300
+    {
+        let p = Prepared::new(base_cfg("UTF-8", lookup_ops(encoding_rs::UTF_8))).unwrap();
+        let mut tags: Vec<String> = vec![];
+        let counts: &[usize] = if ctx.quick() { &[8, 9, 16, 17, 32, 33, 64, 65] } else { &[7, 8, 9, 15, 16, 17, 31, 32, 33, 63, 64, 65, 127, 128, 129, 300] };
+        for &n in counts {
+            tags.push(format!("<a{}>", (0..n).map(|i| format!(" k{i}=v{i}")).collect::<String>()));
+            tags.push(format!("<a{} a=1 B='2' a=3>", (0..n).map(|i| format!(" k{i}")).collect::<String>()));
+            tags.push(format!("<a b=x{} b=y A=z>", " a=\"\"".repeat(n)));
+            tags.push(format!("<a {}=v b={}>", "n".repeat(n), "w".repeat(n)));
+            tags.push(format!("<{} a=\"{}\" b>", "t".repeat(n), "v ".repeat(n)));
+            tags.push(format!("<a{}/>", (0..n).map(|i| format!("/k{i}=\"{i}\"")).collect::<String>()));
+        }
+        par_for(tags.len(), 1, |i| {
+            if ctx.over_time() {
+                return;
+            }
+            let tag = &tags[i];
+            for (pre, post, ns) in [("", "", Ns::Html), ("<svg>", "</svg>", Ns::Svg), ("<p>t</p>", "", Ns::Html)] {
+                let doc = format!("{pre}{tag}x{post}").into_bytes();
+                let (start, len) = (pre.len(), tag.len());
+                for cut in [None, Some(start + 2), Some(start + len / 2), Some(start + len - 1)] {
+                    let (m, calls, _) = check_read(&p, &doc, start, len, ns, cut);
+                    ctx.exec(calls);
+                    ctx.validated(1);
+                    if let Some(msg) = m {
+                        let case = json!({"kind": "bigtag", "doc_hex": hex(&doc), "start": start, "len": len, "svg": ns == Ns::Svg, "cut": cut, "doc_lossy": lossy(&doc[..doc.len().min(120)])});
+                        let c2 = case.clone();
+                        ctx.violation(msg, case, &|| replay(&c2));
+                    }
+                }
+                ctx.states.insert(digest(&doc));
+            }
+        });
+        if !ctx.capped.load(std::sync::atomic::Ordering::Relaxed) {
+            ctx.level_done(&format!("{} start tags with {:?} attributes / duplicates / name and value lengths x 3 contexts x 4 schedules: read API == R-attr", tags.len(), counts));
+        }
     }
     // histories: the element before the tag was matched by a text / comment handler only
     {
